@@ -1,0 +1,33 @@
+//go:build verif
+
+package adapter
+
+import (
+	"time"
+
+	"github.com/karagenc/socket.io-go/parser"
+)
+
+// Exports for the verification harness in /verif. Compiled only with the
+// `verif` build tag; nothing here changes library behaviour.
+
+// VerifNewSessionAwareAdapterCreator is NewSessionAwareAdapterCreator with the
+// clean-up period exposed (production hard-codes one minute).
+func VerifNewSessionAwareAdapterCreator(maxDisconnectionDuration, cleanerDuration time.Duration) Creator {
+	creator := NewInMemoryAdapterCreator()
+	return func(socketStore SocketStore, parserCreator parser.Creator) Adapter {
+		inMemoryAdapter := creator(socketStore, parserCreator).(*inMemoryAdapter)
+		return newSessionAwareAdapter(inMemoryAdapter, maxDisconnectionDuration, cleanerDuration)
+	}
+}
+
+// VerifLogLen reports the number of packets currently retained in the session log.
+func VerifLogLen(a Adapter) int {
+	sa, ok := a.(*sessionAwareAdapter)
+	if !ok {
+		return -1
+	}
+	sa.mu.Lock()
+	defer sa.mu.Unlock()
+	return len(sa.packets)
+}
